@@ -49,13 +49,22 @@ trait DependentRule: Sized {
 
 impl DependentRule for SerializableRule {
   fn visit_dependency<'a>(&'a self, sorter: &mut TopologicalSort<'a, Self>) -> OrderResult<()> {
-    visit_dependent_rule_ids(self, sorter)
+    visit_dependent_rule_ids(self, None, sorter)
   }
 }
 
 impl<L: Language> DependentRule for (L, SerializableRuleCore) {
   fn visit_dependency<'a>(&'a self, sorter: &mut TopologicalSort<'a, Self>) -> OrderResult<()> {
-    visit_dependent_rule_ids(&self.1.rule, sorter)
+    let core = &self.1;
+    // constraints and local utils are matched on the same node as the rule itself,
+    // so a global util can also depend on (or reach itself through) them
+    let local = core.utils.as_ref();
+    let constraints = core.constraints.iter().flat_map(|c| c.values());
+    let utils = core.utils.iter().flat_map(|u| u.values());
+    for rule in std::iter::once(&core.rule).chain(constraints).chain(utils) {
+      visit_dependent_rule_ids(rule, local, sorter)?;
+    }
+    Ok(())
   }
 }
 
@@ -120,26 +129,30 @@ impl<'a, T: DependentRule> TopologicalSort<'a, T> {
   }
 }
 
+/// `local`: the local utils of a global rule, they shadow global utils of the same name.
 fn visit_dependent_rule_ids<'a, T: DependentRule>(
   rule: &'a SerializableRule,
+  local: Option<&HashMap<String, SerializableRule>>,
   sort: &mut TopologicalSort<'a, T>,
 ) -> OrderResult<()> {
   // handle all composite rule here
   if let Maybe::Present(matches) = &rule.matches {
-    sort.visit(matches)?;
+    if !local.is_some_and(|l| l.contains_key(matches)) {
+      sort.visit(matches)?;
+    }
   }
   if let Maybe::Present(all) = &rule.all {
     for sub in all {
-      visit_dependent_rule_ids(sub, sort)?;
+      visit_dependent_rule_ids(sub, local, sort)?;
     }
   }
   if let Maybe::Present(any) = &rule.any {
     for sub in any {
-      visit_dependent_rule_ids(sub, sort)?;
+      visit_dependent_rule_ids(sub, local, sort)?;
     }
   }
   if let Maybe::Present(not) = &rule.not {
-    visit_dependent_rule_ids(not, sort)?;
+    visit_dependent_rule_ids(not, local, sort)?;
   }
   // ofRule is evaluated on the siblings of the node, the node included
   if let Maybe::Present(SerializableNthChild::Complex {
@@ -147,7 +160,7 @@ fn visit_dependent_rule_ids<'a, T: DependentRule>(
     ..
   }) = &rule.nth_child
   {
-    visit_dependent_rule_ids(of_rule, sort)?;
+    visit_dependent_rule_ids(of_rule, local, sort)?;
   }
   Ok(())
 }
